@@ -288,6 +288,17 @@ def skipguard(rep, ctx, sfx):
                     r.violation(key, where(arm["body"]), "the VM skips implicit whitespace without testing that "
                                 "atomicity is NonAtomic: atomic rules would skip WHITESPACE/COMMENT")
             break
+    if not any(kind(mm) == "Match" and kind(peel(mm["scrut"])) == "Tup" for mm in walk(sfn["body"])):
+        # Vm::skip written with guard clauses: evaluate it per flag combination, in atomic and non-atomic mode
+        for flags in ((True, False), (False, True), (True, True)):
+            hf = terms.HirFront(sfn, {}, rule_callees=[c02.VM + "::parse_rule"])
+            ta = c02.vm_skip_eval(sfn, hf, flags[0], flags[1], False)
+            tn = c02.vm_skip_eval(sfn, hf, flags[0], flags[1], True)
+            key = "vm:ws=%s,comment=%s" % flags
+            r.instance(key, where(sfn["body"]))
+            if ta is None or tn is None or norm(ta) != ("ok",) or norm(tn) == ("ok",):
+                r.violation(key, where(sfn["body"]), "the VM skips implicit whitespace without testing that "
+                            "atomicity is NonAtomic: atomic rules would skip WHITESPACE/COMMENT")
     gmac = [m for m in ctx.macros[c02.GENFILE] if m["macro"] == "generate_rule" and m["fn"] == "generate_skip"]
     for m in gmac:
         if len(m.get("args", [])) != 2:
